@@ -31,6 +31,15 @@ CLAIMED = {
              note='"in-range" read as in range for the packing type; a negative value packed as signed for a key documented unsigned cannot be recovered by any decoder of this wire format (characterised by reinterp, not claimed)', tech='Coq proof + per-run table obligations (Tie B) + correspondence (Tie A)', ref='4 C13'),
  'C14': dict(text='dichotomy for every byte string and every signedness table: ValueError, or a consumed prefix that re-encodes to itself with reserved bits cleared; only ValueError can be raised by decode and by encode; short data, size codes 0/6/7, 1-bit values >1, short values, out-of-range constructor arguments all raise ValueError; VALSET = header + items in order, VALGET poll = header + keys in order, VALGET response = successive pairs tiling the payload up to a <4-byte tail or ValueError; loop fuel never binding (Coq); implementation compared with the model and the dichotomy evaluated directly on it',
              note='1-bit items coerce any value by truthiness (documented by the code); a trailing fragment < 4 bytes of a VALGET response is ignored', tech='Coq proof (case analysis on size code, fuelled loop) + correspondence + dichotomy oracle', ref='4 C13/C14'),
+ 'C05': dict(text='model of poll/set/set_mga/fire_and_forget/_wait over an ARBITRARY backend (universally quantified receive/transmit/flush/recover) in virtual time: at most retries+1 transmissions and a trace that only grows; fire_and_forget exactly one Tx and no read; under 0 < dt per receive the model\'s fuel never binds (termination) and the only exception is that of packing an invalid frame; elapsed time <= (retries+1)*k*(delay+T_rx), k = 2 for configuration polls (Coq, induction on fuel/attempts); implementation over a stub backend and virtual clock compared with the model (sends, elapsed time, returns-vs-raises) incl. endless answer-class traffic, and checked against the bound directly',
+             note='time is virtual: only _receive() takes time, every receive takes 0 < dt <= T_rx; float deadline comparisons that are exact ties are detected by the model and regenerated; real clock/scheduler not modelled - partial',
+             tech='Coq proof (fuel sufficiency, arithmetic invariants over an abstract backend) + correspondence under a virtual clock', ref='4 request layer / C05'),
+ 'C10': dict(text='two servers with equal retry configuration and base registrations but ARBITRARY parser state (queue, half-received frame, previous filter) and registry extras give the same result, the same new trace events and the same backend state for any request and any backend; hence the i-th request of any sequence equals the same request alone on a new server (Coq, simulation relation ignoring dead registers and the counter); implementation: each request of generated sequences is re-run alone on a freshly set-up server facing the same receiver state (implementation-only differential) and sequences are compared with the model',
+             note='polls must not re-register the ACK-ACK/ACK-NAK/MGA-ACK class ids (no library poll does); FrameFactory is a process-wide singleton: "fresh server" = after destroy()+setup()',
+             tech='Coq proof (world simulation by induction on fuel) + sequence-vs-fresh differential', ref='4 request layer / C10'),
+ 'C12': dict(text='every Tx event of a request (all retries, failed sends included) carries wire(class,id, body packed once at call time), nothing is sent when packing fails (Coq, via C01); serial backend: exactly the bytes are handed to write(), success iff written = len, recovery keeps the port open at the previous bit rate; gpsd backend: command = & device = lower-case hex (unhex(hex d) = d), success only on a reply containing OK or ACK, socket errors = failure (Coq, small models); implementation: transmitted bytes vs model and vs an independent encoder; both real backend classes over stub serial / socket objects',
+             note='real serial ports, pyserial, sockets and gpsd are replaced by stubs; the backend models are thin (logic only) - partial',
+             tech='Coq proof + correspondence over stubbed transports', ref='4 request layer / C12'),
 }
 PENDING_REASON = 'check under construction in this round; not yet claimed'
 def main():
